@@ -126,7 +126,7 @@ impl Prop for C01 {
     fn cases(&self, tier: Tier) -> u32 {
         match tier {
             Tier::Quick => 700,
-            Tier::Thorough => 12_000,
+            Tier::Thorough => 8_000,
         }
     }
     fn strategy(&self, tier: Tier) -> BoxedStrategy<Case> {
